@@ -189,7 +189,22 @@ func main() {
 		cc.Obs = nil
 		sample := map[string]interface{}{"family": c.Family, "targets": len(c.Targets), "ops": len(c.Ops), "clients": len(c.Clients), "cli_runs": len(c.Obs.Cli)}
 		meta.Count(c.Family, mustJSON(cc), nontrivial(c), sample)
+		lastTS := map[string]int64{}
 		for _, op := range c.Ops {
+			if op.N != nil {
+				if t0, ok := lastTS[op.T]; ok && op.N.TS <= t0 {
+					meta.Hist("ts:not-after-previous")
+				}
+				lastTS[op.T] = op.N.TS
+				seen := map[string]bool{}
+				for _, u := range op.N.Updates {
+					k := mustJSON(u)
+					if seen[k] {
+						meta.Hist("update:repeated-in-notification")
+					}
+					seen[k] = true
+				}
+			}
 			switch {
 			case op.Subscribe:
 				meta.Hist("op:subscribe-point")
